@@ -1162,7 +1162,6 @@ func c18ServedAsRegistered(c *Ctx) {
 	}
 }
 
-
 // c18BytesOnlySlices (R-kind-cases): encoding/json writes a byte SLICE as a base64 string; a byte ARRAY ([N]byte) is
 // written as an array of numbers. A generator's "element kind is Uint8" test may therefore take effect only where the
 // kind is known to be reflect.Slice: the test itself, the branch on it, or — when it sits in a predicate helper — every
